@@ -205,7 +205,11 @@ impl Database {
             pendding_conflict.len()
         );
         for conflict in pendding_conflict {
-            let conflict_command = self.get_value(conflict.clone()).unwrap().value;
+            // (another session may remove a resolved record between the listing and this read)
+            let conflict_command = match self.get_value(conflict.clone()) {
+                Some(value) => value.value,
+                None => continue,
+            };
             if conflict_command.starts_with(RESOLVED_KEY_PREFIX) {
                 log::debug!("Conflict {} already resolved, remove the key", conflict);
                 self.remove_value(conflict.clone());
@@ -220,7 +224,7 @@ impl Database {
         let pendding_conflict = self.list_conflicts_keys(key);
         let values = pendding_conflict
             .iter()
-            .map(|key| self.get_value(key.clone()).unwrap().value)
+            .filter_map(|key| self.get_value(key.clone()).map(|value| value.value))
             .collect::<Vec<_>>();
         values
             .iter()
@@ -246,7 +250,7 @@ impl Database {
             let pendding_conflict = self.list_conflicts_keys(&change.key);
             let values = pendding_conflict
                 .iter()
-                .map(|key| self.get_value(key.clone()).unwrap().value)
+                .filter_map(|key| self.get_value(key.clone()).map(|value| value.value))
                 .collect::<Vec<_>>();
             log::debug!(
                 "has_pendding_conflict conflict change key: {} version : {}, list: {}",
